@@ -21,32 +21,32 @@ def C15_statement : Prop :=
     (b ≤ s.toNat → (calculusSubtraction s b).Canonical ∧ (calculusSubtraction s b).toNat = s.toNat - b)
 
 theorem C15_canonical_unique (s t : Dec) (hs : s.Canonical) (ht : t.Canonical)
-    (h : s.toNat = t.toNat) : s = t := by
-  sorry
+    (h : s.toNat = t.toNat) : s = t :=
+  Dec.canonical_unique s t hs ht h
 
 theorem C15_add (s : Dec) (b : Nat) (hs : s.Canonical) (hb : b < 10) :
-    (calculusAddition s b).Canonical ∧ (calculusAddition s b).toNat = s.toNat + b := by
-  sorry
+    (calculusAddition s b).Canonical ∧ (calculusAddition s b).toNat = s.toNat + b :=
+  calculusAddition_spec s b hs hb
 
 theorem C15_mul (s : Dec) (b : Nat) (hs : s.Canonical) (hb : b < 10) :
-    (calculusMultiplication s b).Canonical ∧ (calculusMultiplication s b).toNat = s.toNat * b := by
-  sorry
+    (calculusMultiplication s b).Canonical ∧ (calculusMultiplication s b).toNat = s.toNat * b :=
+  calculusMultiplication_spec s b hs hb
 
 theorem C15_div (s : Dec) (b : Nat) (hs : s.Canonical) (hb : b < 10) (hb1 : 1 ≤ b) :
     (calculusDivision s b).1.Canonical ∧ (calculusDivision s b).1.toNat = s.toNat / b ∧
-    (calculusDivision s b).2.Canonical ∧ (calculusDivision s b).2.toNat = s.toNat % b := by
-  sorry
+    (calculusDivision s b).2.Canonical ∧ (calculusDivision s b).2.toNat = s.toNat % b :=
+  calculusDivision_spec s b hs hb hb1
 
 theorem C15_sub (s : Dec) (b : Nat) (hs : s.Canonical) (hb : b < 10) (h : b ≤ s.toNat) :
-    (calculusSubtraction s b).Canonical ∧ (calculusSubtraction s b).toNat = s.toNat - b := by
-  sorry
+    (calculusSubtraction s b).Canonical ∧ (calculusSubtraction s b).toNat = s.toNat - b :=
+  calculusSubtraction_spec s b hs hb h
 
 /-- the documented special cases: division by one, multiplication by zero and one are exact
 (they return the operand / `"0"` themselves). -/
 theorem C15_special (s : Dec) :
     calculusDivision s 1 = (s, [0]) ∧ calculusMultiplication s 0 = [0] ∧ calculusMultiplication s 1 = s ∧
     calculusDivision s 0 = ([0], [0]) := by
-  sorry
+  simp [calculusDivision, calculusMultiplication]
 
 theorem C15_holds : C15_statement := by
   intro s b hs hb
@@ -54,12 +54,12 @@ theorem C15_holds : C15_statement := by
 
 /-- rendering of a natural number is canonical and has that value; with `C15_canonical_unique`
 this identifies every result above with `str(exact result)`. -/
-theorem C15_ofNat (n : Nat) : (Dec.ofNat n).Canonical ∧ (Dec.ofNat n).toNat = n := by
-  sorry
+theorem C15_ofNat (n : Nat) : (Dec.ofNat n).Canonical ∧ (Dec.ofNat n).toNat = n :=
+  Dec.ofNat_canonical n
 
 /-! non-vacuity: a long carry chain and a long borrow chain meet the hypotheses. -/
 example : Dec.Canonical (List.replicate 50 9) ∧ (2 : Nat) < 10 := by
-  sorry
+  decide
 example : calculusAddition (List.replicate 50 9) 2 = 1 :: (List.replicate 49 0 ++ [1]) := by decide
 example : calculusSubtraction (1 :: (List.replicate 48 0 ++ [1])) 2 = List.replicate 49 9 := by decide
 
